@@ -7,6 +7,7 @@ func init() {
 		"for an export only the instant Export was entered is known: lower bounds (nothing lost / late) are asserted at ManualReader collections and at ForceFlush / Shutdown calls that returned nil, upper bounds (nothing counted twice or invented) at every collection",
 		"Adds issued while or after Shutdown runs may or may not be reported; calls after Shutdown returned are only required not to panic",
 		"instruments of one meter that share a name but differ in kind or number type are different instruments (the SDK only warns about the duplicate registration and reports each as its own metric); a reported metric is attributed to an instrument by (scope, name, Sum[int64] / Sum[float64], IsMonotonic)",
+		"a reader the program shuts down directly ends its pipeline there (a PeriodicReader's own Shutdown is its final flush point; later Adds are not asserted for it); a MeterProvider.ForceFlush / Shutdown error made only of ErrReaderShutdown (at most one per reader shut down directly by then) counts as a successful flush of every other reader",
 		"OTEL_GO_X_CARDINALITY_LIMIT is unset (the driver strips OTEL_* variables)",
 	))
 }
